@@ -8,8 +8,12 @@ package channel
 // sent: ghost history of the inputs handed to SendInput (one entry per exchange), in order.
 //@ ghost sent []string
 
+// SendInput is the string form of SendInputB. Its postconditions summarise an exchange at ghost level for the driver
+// layers above (`abstract`: assumed at call sites); its body is checked for what it has to do: hand the input, byte for
+// byte, and the caller's options to SendInputB.
 //@ func (*Channel).SendInput
-//@   noverify
+//@   abstract
+//@   at call! SendInputB#1 assert [C01 C04 C12 C13] #the-input-reaches-the-exchange-byte-for-byte-with-the-callers-options arg0 === input && arg1 === opts
 //@   requires RI(c.Q) && c.PromptSearchDepth >= 0
 //@   ensures RI(c.Q)
 //@   modifies sent, optlog
